@@ -52,7 +52,9 @@ LEVEL = 'exploration'
 TECHNIQUE = 'runtime monitoring: complex-step / exact-stencil differences of the same API; linearity identities'
 RULE = ('cases enumerated over (part x method) with random dimension 1-3, per-axis point counts, grid location '
         'kinds, spacing ratios up to 20, akima options (delta_x, eps), bsplines options (order, x_cp_start/end), '
-        'vec_size 1-3; query points strictly inside cells (>= 10% of the cell from a breakpoint); distinct = '
+        'vec_size 1-3; query points strictly inside cells (>= 10% of the cell from a breakpoint); the akima '
+        'component partials also on a 4-D table and at extrapolated points (10-50% of the end cell beyond an end '
+        'node); distinct = '
         'distinct (part, method, point counts, kinds, options); non-trivial = at least one derivative judged')
 LEVEL_TEXT = 'randomised exploration with derived tolerances over every method and every derivative-returning API'
 ASSUMPTIONS = ['points on breakpoints (grid nodes; cell mid-points for even-order scipy splines) are excluded: the '
@@ -537,6 +539,23 @@ def judge_mmsc(case, acc):
     P = [_interior(rng, method, grids) for _ in range(K)]
     X = np.array([p[0] for p in P])
     dist = np.array([p[1] for p in P])
+    if case.get('outside'):
+        # extrapolation (the component is built with extrapolate=True): some coordinates of every point lie
+        # beyond an end node by 10-50% of the end cell; the end node is then the nearest breakpoint and the
+        # interpolant continues the end cell's piece, so the oracles and kappa (dx <= h_cell) stay valid
+        for j in range(K):
+            axes = np.flatnonzero(rng.random(nd) < 0.5)
+            if not len(axes):
+                axes = [int(rng.integers(0, nd))]
+            for d in axes:
+                g = grids[d]
+                u = float(rng.uniform(0.1, 0.5))
+                if rng.random() < 0.5:
+                    dist[j, d] = u * (g[1] - g[0])
+                    X[j, d] = g[0] - dist[j, d]
+                else:
+                    dist[j, d] = u * (g[-1] - g[-2])
+                    X[j, d] = g[-1] + dist[j, d]
     delta = np.array([_delta(method, grids, x, vmax) for x in X])
     if delta.max() / vmax > ILL:
         acc.skip('ill-conditioned-grid')
@@ -702,7 +721,7 @@ def judge_mmsc(case, acc):
                     bad = ~(np.abs(Jt[:, q] - ref) <= tol)
                     if bad.any():
                         j = int(np.argmax(bad))
-                        rep.viol('mmsc:d_dtrain:%s' % method,
+                        rep.viol('mmsc:d_dtrain:%s:%dD' % (method, nd),
                                  'x=%s table entry %d: partial %r, complex step through the component %r (tol %.3g)'
                                  % (X[j].tolist(), int(q), float(Jt[j, q]), float(ref[j]), tol[j]))
                         break
@@ -713,7 +732,7 @@ def judge_mmsc(case, acc):
                 tolE = 8 * delta + 64 * R.EPS * cond_t * float(np.abs(v1).sum())
                 if not np.all(np.abs(got - f1) <= tolE):
                     j = int(np.argmax(np.abs(got - f1) - tolE))
-                    rep.viol('mmsc:d_dtrain-euler-identity:%s' % method,
+                    rep.viol('mmsc:d_dtrain-euler-identity:%s:%dD' % (method, nd),
                              'x=%s: <partial, training values>=%r but output=%r (tol %.3g)'
                              % (X[j].tolist(), float(got[j]), float(f1[j]), tolE[j]))
                 run(X, v1)
@@ -921,6 +940,9 @@ def _cases(tier, seed):
     directed('mmsc', 'akima', [5, 5], vec=3)
     directed('mmsc', 'akima', [4, 5, 5], vec=4)
     directed('mmsc', 'akima', [6], vec=3)
+    directed('mmsc', 'akima', [4, 4, 5, 4], vec=2)               # a middle table with two sub-dimensions
+    directed('mmsc', 'akima', [5, 5], vec=3, outside=True)
+    directed('mmsc', 'akima', [4, 5, 4], vec=3, outside=True)
 
     for _ in range(reps['ddx']):
         for m in GENERAL + FIXED:
@@ -952,6 +974,9 @@ def _cases(tier, seed):
             c = base('mmsc', m, R.FIXED_DIM.get(m) or int(rng.integers(1, 4)), hi=6)
             c['vec'] = int(rng.integers(2, 5))
             out.append(c)
+            if m == 'akima' and len(c['npts']) > 1:
+                c = dict(c, outside=True, seed=c['seed'] + 1)
+                out.append(c)
     return out
 
 
